@@ -5,7 +5,9 @@
    On the unfixed code C14_name fails in that branch: see C14_ex_former_witness.
 
    The theorems hold for ARBITRARY behaviour of crypto/x509: cert, pool, Certificate.Verify (x509_verify),
-   VerifyHostname, NotAfter, the chain pre-checks and hostnameInSNI are universally quantified.
+   VerifyHostname, NotAfter, the chain pre-checks AND the name that was put into SNI (name_in_sni: hostnameInSNI(ServerName),
+   empty for an IP literal or a client without SNI extension, anything a custom spec wrote) are universally quantified:
+   the verification name never depends on it outside the ECH-rejected branch.
    Level: proof of the decision logic (which options reach the verifier, when its verdict is honoured);
    partial with respect to X.509 itself, which is not modelled. *)
 From UV Require Import Base.Common Model.Verify Proofs.VerifyP.
@@ -15,10 +17,10 @@ Open Scope Z_scope.
    ServerName by default, InsecureServerNameToVerify when set, none for "*", and the ECH public name
    when the ECH offer was rejected. *)
 Theorem C14_name :
-  forall (cert pool : Type) (not_after : cert -> Z) (hostname_in_sni : name -> name)
+  forall (cert pool : Type) (not_after : cert -> Z) (name_in_sni : name)
          (cfg : config pool) (ech_public_name : name) (ech_accepted : bool) (leaf : cert),
   config_accepted cfg = true -> ech_public_name <> [] ->
-  forall c, c = conn_at_verify hostname_in_sni cfg ech_public_name ech_accepted ->
+  forall c, c = conn_at_verify name_in_sni cfg ech_public_name ech_accepted ->
   ech_rejected cfg c = true \/ InsecureSkipVerify cfg = false ->
   used_name cert pool not_after cfg c leaf = expected_name cfg c ech_public_name.
 Proof. exact used_name_is_expected. Qed.
@@ -50,12 +52,12 @@ Print Assumptions C14_time_only.
    (no user callbacks installed; the chain parses). *)
 Theorem C14_decision :
   forall (cert pool : Type) (x509_verify : pool -> Z -> name -> list cert -> bool) (not_after : cert -> Z)
-         (chain_parses : list cert -> bool) (leaf_key_supported : cert -> bool) (hostname_in_sni : name -> name)
+         (chain_parses : list cert -> bool) (leaf_key_supported : cert -> bool) (name_in_sni : name)
          (cfg : config pool) (ech_public_name : name) (ech_accepted : bool) (leaf : cert) (rest : list cert),
   config_accepted cfg = true -> ech_public_name <> [] ->
   chain_parses (leaf :: rest) = true -> leaf_key_supported leaf = true ->
   ech_rejection_verify cfg = None -> verify_callbacks_ok cfg = true ->
-  forall c, c = conn_at_verify hostname_in_sni cfg ech_public_name ech_accepted ->
+  forall c, c = conn_at_verify name_in_sni cfg ech_public_name ech_accepted ->
   (is_ok (verify_server_certificate cert pool x509_verify not_after chain_parses leaf_key_supported cfg c (leaf :: rest)) = true <->
    (ech_rejected cfg c = false /\ InsecureSkipVerify cfg = true) \/
    x509_verify (RootCAs cfg) (expected_time cert pool not_after cfg leaf)
@@ -68,10 +70,10 @@ Print Assumptions C14_decision.
    expected name at the expected time. *)
 Theorem C14_success_sound :
   forall (cert pool : Type) (x509_verify : pool -> Z -> name -> list cert -> bool) (not_after : cert -> Z)
-         (chain_parses : list cert -> bool) (leaf_key_supported : cert -> bool) (hostname_in_sni : name -> name)
+         (chain_parses : list cert -> bool) (leaf_key_supported : cert -> bool) (name_in_sni : name)
          (cfg : config pool) (ech_public_name : name) (ech_accepted : bool) (chain : list cert),
   config_accepted cfg = true -> ech_public_name <> [] ->
-  forall c, c = conn_at_verify hostname_in_sni cfg ech_public_name ech_accepted ->
+  forall c, c = conn_at_verify name_in_sni cfg ech_public_name ech_accepted ->
   client_result cert pool x509_verify not_after chain_parses leaf_key_supported cfg c chain = HsOk ->
   InsecureSkipVerify cfg = false ->
   exists leaf rest, chain = leaf :: rest /\ ech_rejected cfg c = false /\
@@ -85,13 +87,13 @@ Print Assumptions C14_success_sound.
 Theorem C14_success_name_matches :
   forall (cert pool : Type) (x509_verify : pool -> Z -> name -> list cert -> bool)
          (verify_hostname : cert -> name -> bool) (not_after : cert -> Z)
-         (chain_parses : list cert -> bool) (leaf_key_supported : cert -> bool) (hostname_in_sni : name -> name)
+         (chain_parses : list cert -> bool) (leaf_key_supported : cert -> bool) (name_in_sni : name)
          (chain_verify : pool -> Z -> list cert -> bool),
   (forall r t n leaf rest,
      x509_verify r t n (leaf :: rest) = chain_verify r t (leaf :: rest) && (is_empty n || verify_hostname leaf n)) ->
   forall (cfg : config pool) (ech_public_name : name) (ech_accepted : bool) (chain : list cert),
   config_accepted cfg = true -> ech_public_name <> [] ->
-  forall c, c = conn_at_verify hostname_in_sni cfg ech_public_name ech_accepted ->
+  forall c, c = conn_at_verify name_in_sni cfg ech_public_name ech_accepted ->
   client_result cert pool x509_verify not_after chain_parses leaf_key_supported cfg c chain = HsOk ->
   InsecureSkipVerify cfg = false ->
   exists leaf rest, chain = leaf :: rest /\
@@ -107,10 +109,10 @@ Print Assumptions C14_success_name_matches.
    public name, whatever ServerName / InsecureServerNameToVerify / InsecureSkipVerify say ... *)
 Theorem C14_ech_rejected_sound :
   forall (cert pool : Type) (x509_verify : pool -> Z -> name -> list cert -> bool) (not_after : cert -> Z)
-         (chain_parses : list cert -> bool) (leaf_key_supported : cert -> bool) (hostname_in_sni : name -> name)
+         (chain_parses : list cert -> bool) (leaf_key_supported : cert -> bool) (name_in_sni : name)
          (cfg : config pool) (ech_public_name : name) (ech_accepted : bool) (chain : list cert),
   config_accepted cfg = true -> ech_public_name <> [] -> ech_rejection_verify cfg = None ->
-  forall c, c = conn_at_verify hostname_in_sni cfg ech_public_name ech_accepted ->
+  forall c, c = conn_at_verify name_in_sni cfg ech_public_name ech_accepted ->
   client_result cert pool x509_verify not_after chain_parses leaf_key_supported cfg c chain = HsEchRejected ->
   exists leaf rest, chain = leaf :: rest /\ ech_config_list cfg = true /\ ech_accepted = false /\
     x509_verify (RootCAs cfg) (expected_time cert pool not_after cfg leaf) ech_public_name chain = true.
@@ -121,12 +123,12 @@ Print Assumptions C14_ech_rejected_sound.
    ECHRejectionError when the offer was rejected (this is the half that failed before the fix). *)
 Theorem C14_complete :
   forall (cert pool : Type) (x509_verify : pool -> Z -> name -> list cert -> bool) (not_after : cert -> Z)
-         (chain_parses : list cert -> bool) (leaf_key_supported : cert -> bool) (hostname_in_sni : name -> name)
+         (chain_parses : list cert -> bool) (leaf_key_supported : cert -> bool) (name_in_sni : name)
          (cfg : config pool) (ech_public_name : name) (ech_accepted : bool) (leaf : cert) (rest : list cert),
   config_accepted cfg = true -> ech_public_name <> [] ->
   chain_parses (leaf :: rest) = true -> leaf_key_supported leaf = true ->
   ech_rejection_verify cfg = None -> verify_callbacks_ok cfg = true ->
-  forall c, c = conn_at_verify hostname_in_sni cfg ech_public_name ech_accepted ->
+  forall c, c = conn_at_verify name_in_sni cfg ech_public_name ech_accepted ->
   x509_verify (RootCAs cfg) (expected_time cert pool not_after cfg leaf)
               (dns_of_name (expected_name cfg c ech_public_name)) (leaf :: rest) = true ->
   client_result cert pool x509_verify not_after chain_parses leaf_key_supported cfg c (leaf :: rest)
@@ -156,6 +158,7 @@ Print Assumptions C14_resumed.
 Definition ex_S : name := [115; 46; 116]%N.   (* "s.t" *)
 Definition ex_O : name := [111; 46; 116]%N.   (* "o.t" *)
 Definition ex_P : name := [112; 46; 116]%N.   (* "p.t" *)
+Definition ex_W : name := [119; 46; 116]%N.   (* "w.t": what went into SNI in the examples - unrelated to every other name *)
 Definition ex_roots : tpool := [TRoot 1 0 1000].
 Definition ex_cfg (inv : name) (sv st ech : bool) : config tpool := mkConfig ex_S inv sv st ex_roots 500 ech None true.
 Definition ex_leaf (names : list name) : tcert := TCert names 400 600 1 0.
@@ -164,7 +167,7 @@ Definition ex_leaf (names : list name) : tcert := TCert names 400 600 1 0.
    The unfixed selection verifies against the secret name (refusing it); the fixed one against the public name. *)
 Example C14_ex_former_witness :
   let cfg := ex_cfg [] false false true in
-  let c := t_conn cfg ex_P false in
+  let c := t_conn ex_W cfg ex_P false in
   used_name_unfixed tcert tpool t_na cfg c (ex_leaf [ex_P]) = Some ex_S /\
   expected_name cfg c ex_P = Some ex_P /\
   used_name tcert tpool t_na cfg c (ex_leaf [ex_P]) = Some ex_P /\
@@ -176,11 +179,11 @@ Proof. vm_compute. repeat split. Qed.
 Example C14_ex_decision :
   let cfg := ex_cfg ex_O false false false in
   config_accepted cfg = true /\ ech_rejection_verify cfg = None /\ verify_callbacks_ok cfg = true /\
-  t_result cfg (t_conn cfg ex_P false) [ex_leaf [ex_O]] = HsOk /\
-  t_result cfg (t_conn cfg ex_P false) [ex_leaf [ex_S]] = HsCertError /\
-  t_result (ex_cfg [42%N] false false false) (t_conn cfg ex_P false) [ex_leaf [ex_P]] = HsOk /\
-  t_result (ex_cfg [] false false false) (t_conn cfg ex_P false) [TCert [ex_S] 400 600 2 0] = HsCertError /\
-  t_result (ex_cfg [] true false false) (t_conn cfg ex_P false) [TCert [ex_P] 400 600 2 0] = HsOk.
+  t_result cfg (t_conn ex_W cfg ex_P false) [ex_leaf [ex_O]] = HsOk /\
+  t_result cfg (t_conn ex_W cfg ex_P false) [ex_leaf [ex_S]] = HsCertError /\
+  t_result (ex_cfg [42%N] false false false) (t_conn ex_W cfg ex_P false) [ex_leaf [ex_P]] = HsOk /\
+  t_result (ex_cfg [] false false false) (t_conn ex_W cfg ex_P false) [TCert [ex_S] 400 600 2 0] = HsCertError /\
+  t_result (ex_cfg [] true false false) (t_conn ex_W cfg ex_P false) [TCert [ex_P] 400 600 2 0] = HsOk.
 Proof. vm_compute. repeat split. Qed.
 
 (* the structural hypothesis of C14_success_name_matches holds for the concrete X.509 *)
@@ -191,9 +194,23 @@ Proof. reflexivity. Qed.
 (* the time-independence premise of C14_time_only is satisfiable (a leaf and root valid at every time the
    options can carry), and InsecureSkipTimeVerify does matter on an expired leaf *)
 Example C14_ex_time :
-  t_result (ex_cfg [] false false false) (t_conn (ex_cfg [] false false false) ex_P false) [TCert [ex_S] 100 200 1 0] = HsCertError /\
-  t_result (ex_cfg [] false true false) (t_conn (ex_cfg [] false true false) ex_P false) [TCert [ex_S] 100 200 1 0] = HsOk /\
-  t_result (ex_cfg [] false true false) (t_conn (ex_cfg [] false true false) ex_P false) [TCert [ex_O] 100 200 1 0] = HsCertError.
+  t_result (ex_cfg [] false false false) (t_conn ex_W (ex_cfg [] false false false) ex_P false) [TCert [ex_S] 100 200 1 0] = HsCertError /\
+  t_result (ex_cfg [] false true false) (t_conn ex_W (ex_cfg [] false true false) ex_P false) [TCert [ex_S] 100 200 1 0] = HsOk /\
+  t_result (ex_cfg [] false true false) (t_conn ex_W (ex_cfg [] false true false) ex_P false) [TCert [ex_O] 100 200 1 0] = HsCertError.
+Proof. vm_compute. repeat split. Qed.
+
+(* names that never reach SNI: an IP-literal ServerName (SNI empty) is still the verification name — a leaf without that
+   IP SAN is refused, one with it accepted, brackets and a trailing dot are handled by VerifyHostname *)
+Example C14_ex_ip_name :
+  let ip := [49; 46; 50; 46; 51; 46; 52]%N in          (* "1.2.3.4" *)
+  let cfg := mkConfig ip [] false false ex_roots 500 false None true in
+  let c := t_conn [] cfg ex_P false in
+  c_server_name c = [] /\
+  used_name tcert tpool t_na cfg c (ex_leaf [ex_S]) = Some ip /\
+  t_result cfg c [ex_leaf [ex_S]] = HsCertError /\
+  t_result cfg c [ex_leaf [ip]] = HsOk /\
+  t_result (mkConfig (91%N :: ip ++ [93%N]) [] false false ex_roots 500 false None true) c [ex_leaf [ip]] = HsOk /\
+  t_result (mkConfig (ex_S ++ [46%N]) [] false false ex_roots 500 false None true) c [ex_leaf [ex_S]] = HsOk.
 Proof. vm_compute. repeat split. Qed.
 
 (* chains with an intermediate: trusted only through a root, and every certificate of the path must be valid at
@@ -201,12 +218,12 @@ Proof. vm_compute. repeat split. Qed.
    expires before the leaf is refused, and an untrusted root is refused whatever the flag says *)
 Example C14_ex_intermediate :
   let leaf := TCert [ex_S] 400 600 7 0 in
-  t_result (ex_cfg [] false false false) (t_conn (ex_cfg [] false false false) ex_P false) [leaf; TCert [] 300 700 1 7] = HsOk /\
-  t_result (ex_cfg [] false true false) (t_conn (ex_cfg [] false true false) ex_P false) [leaf; TCert [] 300 700 1 7] = HsOk /\
-  t_result (ex_cfg [] false false false) (t_conn (ex_cfg [] false false false) ex_P false) [leaf; TCert [] 300 550 1 7] = HsOk /\
-  t_result (ex_cfg [] false true false) (t_conn (ex_cfg [] false true false) ex_P false) [leaf; TCert [] 300 550 1 7] = HsCertError /\
-  t_result (ex_cfg [] false true false) (t_conn (ex_cfg [] false true false) ex_P false) [leaf; TCert [] 300 550 2 7] = HsCertError /\
-  t_result (ex_cfg [] false false false) (t_conn (ex_cfg [] false false false) ex_P false) [leaf] = HsCertError.
+  t_result (ex_cfg [] false false false) (t_conn ex_W (ex_cfg [] false false false) ex_P false) [leaf; TCert [] 300 700 1 7] = HsOk /\
+  t_result (ex_cfg [] false true false) (t_conn ex_W (ex_cfg [] false true false) ex_P false) [leaf; TCert [] 300 700 1 7] = HsOk /\
+  t_result (ex_cfg [] false false false) (t_conn ex_W (ex_cfg [] false false false) ex_P false) [leaf; TCert [] 300 550 1 7] = HsOk /\
+  t_result (ex_cfg [] false true false) (t_conn ex_W (ex_cfg [] false true false) ex_P false) [leaf; TCert [] 300 550 1 7] = HsCertError /\
+  t_result (ex_cfg [] false true false) (t_conn ex_W (ex_cfg [] false true false) ex_P false) [leaf; TCert [] 300 550 2 7] = HsCertError /\
+  t_result (ex_cfg [] false false false) (t_conn ex_W (ex_cfg [] false false false) ex_P false) [leaf] = HsCertError.
 Proof. vm_compute. repeat split. Qed.
 
 (* resumption: offered for a matching unexpired verified leaf; not for a wrong name, an expired leaf, or a
